@@ -16,6 +16,8 @@ R19.own     a constructor that refers to another array's storage (_ptr(src._ptr)
             owner as well (_handle / _tableHandle / _refcount from the same source)
 R19.alias   a local array made from a reference-to-const array parameter (shallow copy: shared storage) is never used for mutable
             access
+R19.shape2d a FixedArray2D member reading another 2-D array at its own counters has compared both extents (match_dimension or
+            other.len(), a Vec2) on every path to the access
 R19.tuple   PyTuple_GetItem(x,k) is unreachable unless PyTuple_Check(x) and PyTuple_Size(x)==N>k held
 R19.life    a binding whose target returns a view of self's storage without sharing the handle carries a policy that
             keeps self alive for the result's lifetime (custodian 0 = result, ward 1 = self)
@@ -193,6 +195,40 @@ def rule_inv(fx, out):
             out.append(('R19.inv', oid, HOLDS, '_indices set on a view that aliases %s\'s storage' % src, f['loc']))
         else:
             out.append(('R19.inv', oid, VIOLATED, '_indices is set although _ptr is %s: the index table addresses the source\'s unmasked storage, not the compact copy of _length elements' % ('re-pointed to fresh storage (%s)' % reassigned[0]['rhs'] if reassigned else ptr), f['loc']))
+    return n
+
+def rule_shape2d(fx, out):
+    """R19.shape2d: a FixedArray2D member that reads another 2-D array at the destination's counters (other(i, j)) has made sure
+    the two shapes agree in *both* extents first: match_dimension(other), or a comparison of other.len() - a Vec2, so both
+    extents - that the element access cannot be reached without, or (constructors) a destination sized from other.len().
+    Equal element counts are not enough: a 3x2 source would be read out of bounds along one axis."""
+    n = 0; seen = set()
+    for f in fx.fns:
+        if f.get('cls') != 'FixedArray2D' or f.key in seen: continue
+        ps = [p['name'] for p in f['params'] if 'FixedArray2D' in p['type']]
+        if not ps: continue
+        acc = {}
+        for e in f.events:
+            if e['k'] == 'call' and e['name'].endswith('operator()') and e.get('objKind', '').startswith('param:'):
+                acc.setdefault(e['objKind'].split(':', 1)[1], []).append(e)
+        if not acc: continue
+        seen.add(f.key)
+        inits = {i['field']: i['text'] for i in f.get('inits', [])}
+        for P_ in ps:
+            if P_ not in acc: continue
+            n += 1
+            oid = 'shape2d:%s#%s' % (sname(f), P_)
+            md = [e for e in f.events if e['k'] == 'call' and e['name'].split('::')[-1] == 'match_dimension' and e.get('args') and e['args'][0] == P_]
+            if md and all(f.dominates(md[0]['block'], e['block'], md[0]['idx'], e['idx']) for e in acc[P_]):
+                out.append(('R19.shape2d', oid, HOLDS, 'match_dimension(%s) precedes every element access' % P_, f['loc'])); continue
+            if f.get('ctor') and re.search(r'\b%s\.len\(\)' % re.escape(P_), inits.get('_length', '')):
+                out.append(('R19.shape2d', oid, HOLDS, 'the new array is sized from %s.len()' % P_, f['loc'])); continue
+            conds = [c for c in f.conds() if re.match(r'^%s\.len\(\)\s*==' % re.escape(P_), c) and '*' not in c and 'totalLen' not in c]
+            ok = bool(conds) and all(not f.reaches(e, {conds[0]: False}) for e in acc[P_])
+            if ok:
+                out.append(('R19.shape2d', oid, HOLDS, 'element access unreachable unless %s' % conds[0], f['loc']))
+            else:
+                out.append(('R19.shape2d', oid, VIOLATED, '%s(i, j) is read at the destination\'s counters, but no comparison of the 2-D length %s.len() (both extents) guards it%s: a source of another shape with the same number of elements is read with the wrong pitch and out of bounds' % (P_, P_, (' - only %s' % [c for c in f.conds() if P_ in c][:2]) if [c for c in f.conds() if P_ in c] else ''), acc[P_][0]['loc']))
     return n
 
 ALIASFAM = ('FixedArray', 'FixedVArray', 'FixedArray2D', 'FixedMatrix', 'StringArrayT')
@@ -542,7 +578,7 @@ def rule_order2d(fx, out):
             out.append(('R19.order2d', 'order2d:%s@%s' % (sname(f), outer['loc'].rsplit(':', 2)[-2] if False else sname(f) + '/' + o_ + i_), VIOLATED if bad else HOLDS, bad or 'running counter %s: x index from the inner variable %s, y index from the outer variable %s' % (sorted(counters)[0], i_, o_), outer['loc']))
     return n
 
-RULES = [('order2d', rule_order2d), ('tmp', rule_tmp), ('acc', rule_acc), ('wguard', rule_wguard), ('wprop', rule_wprop), ('inv', rule_inv), ('own', rule_own), ('alias', rule_alias), ('tuple', rule_tuple), ('life', rule_life), ('buf', rule_buf), ('str', rule_str)]
+RULES = [('order2d', rule_order2d), ('tmp', rule_tmp), ('acc', rule_acc), ('wguard', rule_wguard), ('wprop', rule_wprop), ('inv', rule_inv), ('own', rule_own), ('alias', rule_alias), ('shape2d', rule_shape2d), ('tuple', rule_tuple), ('life', rule_life), ('buf', rule_buf), ('str', rule_str)]
 
 def emit(rep, out):
     seen = {}
@@ -587,7 +623,7 @@ def main(rep, ws, tier):
     from . import c19ir
     nidx = c19ir.main_idx(rep, ws)
     rep.floor('index-arithmetic obligations (IR)', nidx, 12)
-    floors = {'acc': 2, 'wguard': 40, 'wprop': 15, 'inv': 3, 'own': 6, 'tuple': 8, 'life': 3, 'buf': 20, 'str': 5, 'order2d': 3}
+    floors = {'shape2d': 6, 'acc': 2, 'wguard': 40, 'wprop': 15, 'inv': 3, 'own': 6, 'tuple': 8, 'life': 3, 'buf': 20, 'str': 5, 'order2d': 3}
     for k, v in floors.items():
         rep.floor('R19.%s instances' % k, counts.get(k, 0), v)
     rep.floor('functions analysed for discarded exception objects', counts.get('tmp', 0), 3000)
